@@ -20,8 +20,11 @@ of the current code:
   requests) — read by the error branch of `ServeHTTP`, and, in the current code, **written** there
   (`errRes.Message = …`, DESIGN §7 F8);
 * the D2 snapshot cell (`c.uris.Load/Store` of an immutable `*serviceUris`; copy-on-write);
-* the state of the package-level `*rand.Rand` in `d2/serviceUris.go` — `rng.Float64()` is an
-  unlocked read-modify-write (DESIGN §7 F16), modelled as a read step followed by a write step.
+* the state of the package-level `*rand.Rand` in `d2/serviceUris.go` — until /repo commit 08c3f03
+  `rng.Float64()` ran without a lock (DESIGN §7 F16): a read step followed by a write step
+  (`aRngRead`, `aRngWrite`); since then every draw goes through `randomFloat64()` under `rngLock`: one
+  atomic read-modify-write (`aRngDrawLocked`). Which of the two describes /repo now is regenerated
+  from the source (`Consts.rngUnlocked`, `resolveNow`).
 -/
 namespace Restli.SharedCells
 
